@@ -262,6 +262,48 @@ def run_block_state_kernel(tier, log, seed):
         except mir.Unsupported as e:
             cx.inconcl.append(f"load_cache_account: {e}")
 
+    # ------------------------------------------------------------------ (D3) State::code_by_hash
+    cands = _fn(funcs, r"^states::state::<impl at [^>]*>::code_by_hash$", r"State<DB>")
+    if len(cands) != 1 or "use_preloaded_bundle" not in st_fields:
+        cx.inconcl.append(f"State::code_by_hash: {len(cands)} MIR bodies")
+    else:
+        fn = cands[0]
+        BUNDLE = 64
+        rules = [(r"OccupiedEntry::<.*>::get$", f"tag:{CACHE}"), (r"as Clone>::clone$", "arg:0"),
+                 (r"^HashMap::<FixedBytes<32>, Bytecode>::get::<", f"tag:{BUNDLE}"),
+                 (r"VacantEntry::<.*>::insert$", "record:ins:2;count:inserted"),
+                 (r"as (primitives::db::)?Database>::code_by_hash$", f"count:dbreads;tag:{INNER}"), (r" as Try>::branch$", "arg:0"), (r"from_residual$", f"tag:{ERR}")]
+        consts = [(r"^copy \(\(\*_1\)\.%d: bool\)$" % st_fields.index("use_preloaded_bundle"), lambda m, env: "use_bundle")]
+        fl = mirflow.Flow(fn, rules, consts)
+        fl.free["use_bundle"] = "(declare-const use_bundle Int)"
+        try:
+            decls, asserts, cells, order, returns, out = fl.encode()
+            from jobs_c34 import _occ_label
+            ent = _call_blocks(fn, r"^HashMap::<FixedBytes<32>, Bytecode>::entry$")
+            bg = _call_blocks(fn, r"^HashMap::<FixedBytes<32>, Bytecode>::get::<")
+            occ = _occ_label(fn, ent[0][1]) if len(ent) == 1 else None
+            # the bundle map consulted must be bundle_state.contracts
+            bs_ok = len(bg) == 1 and any(re.match(r"^_\d+ = &\(\(\(\*_1\)\.%d: .*BundleState\)\.\d+: .*HashMap<.*FixedBytes<32>, .*Bytecode>\)$" % st_fields.index("bundle_state"), s_)
+                                         for b in fn.blocks.values() for s_ in b.stmts)
+            if not (occ and bs_ok):
+                cx.unrecognised("State::code_by_hash", f"shape not recognised (entry={bool(occ)} bundle lookup={bs_ok})")
+            else:
+                OCC, BD = f"(= disc_{ent[0][1]} {occ})", f"disc_{bg[0][1]}"
+                extra = ["(or (= use_bundle 0) (= use_bundle 1))", f"(or (= {BD} 0) (= {BD} 1))"]
+                per = []
+                for b in returns:
+                    g = lambda c: out(c, b)
+                    use_b = f"(and (= use_bundle 1) (= {BD} 1))"
+                    ok = (f"(ite {OCC} (and (= {g('_0')} {CACHE}) (= {g('@inserted')} 0) (= {g('@dbreads')} 0)) "
+                          f"(ite {use_b} (and (= {g('_0')} {BUNDLE}) (= {g('@inserted')} 1) (= {g('@ins.1')} {BUNDLE}) (= {g('@dbreads')} 0)) "
+                          f"(and (= {g('_0')} {INNER}) (= {g('@inserted')} 1) (= {g('@ins.1')} {INNER}) (= {g('@dbreads')} 1))))")
+                    per.append(f"(and on_{b} (not (= {g('_0')} {ERR})) (not {ok}))")
+                wit = [(nm, "(or " + " ".join(f"(and on_{b} (= {out('_0', b)} {tg}))" for b in returns) + ")") for nm, tg in (("cached", CACHE), ("bundle", BUNDLE), ("database", INNER))]
+                cx.decide("State::code_by_hash", decls, asserts, order, extra, "(or " + " ".join(per) + ")", wit, [f"disc_{ent[0][1]}", "use_bundle", BD],
+                          "cached code is not reused, a preloaded bundle's code does not win over the database, or the answer is not cached as returned")
+        except mir.Unsupported as e:
+            cx.inconcl.append(f"State::code_by_hash: {e}")
+
     res = dict(queries=cx.duo.queries, solver_s=cx.duo.time, engine="mir provenance-flow -> smtlib (z3 4.8.12 + cvc5 1.0)", bounds="; ".join(cx.samples),
                detail="apply_account_state: inputs (touched, selfdestructed, created, empty, has_state_clear); State::storage closure: (slot cached?, storage known?); "
                       "load_cache_account: (cached?, use_preloaded_bundle, in bundle?, database answer present?, empty?)")
